@@ -5,6 +5,16 @@ import json, sys
 
 CLAIMED = {
   # id: (category, technique, text, note, design_ref)
+  "C02": ("exploration",
+          "deterministic simulation: seeded caller- and optimizer-driven operation histories with model failures in between, reference model re-evaluated at the reported parameters",
+          "After every operation of a seeded history (updates, queries, weighted-data reads, conversions, fits; transient model failures between good updates) the residual vector must equal, element-wise within a forward-error bound, the column-major stacking of W.Y - (W.Phi_ref(alpha)).C at the alpha the problem reports, with Phi_ref from the simulator's reference mathematics and W.Y formed from the raw inputs; weighted data must equal w*y in the API's shape; best_fit must equal Phi_ref(alpha_hat).C_hat in the shape of the observations; params must be the last vector the model acknowledged (read off the event log). Non-trivial weights and non-zero residuals are required for a run to count. Sampling, not proof.",
+          "Trusted: reference mathematics (refmath), the forward-error bound gamma=8(M+2)u plus subnormal slack; comparisons with non-finite operands are gated out and counted.",
+          "5 (C02), 4"),
+  "C04": ("exploration",
+          "deterministic simulation: seeded fits over an optimizer-knob swarm, observed step by step through a tap around the real optimizer and through the model seam",
+          "Each seeded fit runs twice, through LevMarSolver::fit and through the same optimizer on a tap around a twin problem (model-call logs must agree). Checked: Ok exactly for successful terminations; the returned problem reports the parameters the optimizer applied last (restore after a rejected last step included); for successful fits of models that evaluate: coefficients/residuals bitwise equal to a fresh problem at the returned parameters, residual identity, coefficients optimal on the objective against an independent f64 least-squares solution (gated on conditioning and truncation threshold), reported objective = 1/2||r||^2, objective not above the initial one; evaluations within patience*(P+1) and parameter applications within evaluations. The knob swarm reaches every termination reason (counted in the evidence). Sampling, not proof.",
+          "Trusted: tap, reference least squares (modified Gram-Schmidt in f64), one-sided Jacobi singular values for the gates.",
+          "5 (C04), 4"),
   "C09": ("fault_enumeration",
           "deterministic simulation with fault injection: every model-call position of a seeded scenario gets a transient and a persistent failure; oracle over the recorded history plus a tap around the real optimizer",
           "For each seeded scenario (build, caller-driven updates/queries, a complete fit with statistics, a recovery update) the sequence of model calls is learned fault-free and then every position is re-executed with a failing call (transient, persistent, burst, fail-after-mutating, wrong-length closure output), on hand-written and builder-made models, sequential and parallel (simulated schedules decide which column hits the failing derivative). After a failed update residuals/coefficients/Jacobian must be absent; a failed derivative yields no Jacobian; anything present must equal bitwise the state of a fresh fault-free problem at the reported parameters; an optimizer that received None must lead to Err; a failure during the statistics must lead to Err; the first clean update afterwards recovers; nothing panics. Exhaustive over single-fault positions of the generated scenarios, sampled over scenarios and multi-fault plans.",
